@@ -157,7 +157,8 @@ def real_rows(idx):
 
 def build(X, cfg):
     idx = NNDescent(X, metric=cfg["metric"], n_neighbors=cfg["k"], random_state=cfg["seed"], tree_init=cfg["tree_init"],
-                    pruning_degree_multiplier=cfg["mult"], diversify_prob=cfg["dp"], low_memory=cfg.get("low_memory", True))
+                    pruning_degree_multiplier=cfg["mult"], diversify_prob=cfg["dp"], low_memory=cfg.get("low_memory", True),
+                    compressed=cfg.get("compressed", False))
     ng = (idx._neighbor_graph[0].copy(), idx._neighbor_graph[1].copy())
     if cfg.get("full_prepare", True):
         idx.prepare()
@@ -261,6 +262,13 @@ def api_predicate(res, cfg, idx, ng, T, m):
             if not (w in lists[u] or u in lists[w]):
                 viol("subgraph", "edge %d -> %d: neither lists the other" % (u, w), {"u": u, "w": w})
                 break
+        if cfg["dp"] == 0.0:
+            # probability 0 removes nothing: before the degree bound applies, row u is its own list united with the reverse edges
+            U = sorted((lists[u] | {w for w in range(n) if u in lists[w]}) - {u})
+            if len(U) <= m and U != S and not any(plen(u, w) <= float(EPS32) for w in U):
+                viol("prob0", "diversify_prob=0: point %d has %d candidate edges (bound m=%d) but %d edges; missing %r"
+                     % (u, len(U), m, len(S), sorted(set(U) - set(S))[:5]), {"u": u})
+                break
         if len(S) > m and sym:
             ls = [plen(u, w) for w in S]
             mx = max(ls)
@@ -325,7 +333,7 @@ def run_plan(res, rng, plan, count, tier):
         dp = 1.0 if e2e else float(rng.choice([0.5, 0.5, 0.0]))
         cfg = {"metric": metric, "sparse": sparse, "stream": stream, "n": n, "k": k, "dim": dim, "mult": mult, "dp": dp,
                "tree_init": bool(rng.integers(2)), "seed": int(rng.integers(1000)), "dseed": int(rng.integers(1 << 30)),
-               "low_memory": bool(rng.integers(2)), "full_prepare": (c % 4 == 0)}
+               "low_memory": bool(rng.integers(2)), "full_prepare": (c % 4 == 0), "compressed": (c % 3 == 1)}
         X = gen_data(np.random.default_rng(cfg["dseed"]), n, dim, stream_, sparse)
         res.count("m=%d" % m if m <= 2 else "m>2"); res.count("dp=%g" % dp); res.count("stream_" + stream)
         res.count("tree_init=%s" % cfg["tree_init"]); res.count("plan_%s_%s" % ("csr" if sparse else "dense", metric))
